@@ -22,6 +22,7 @@ type c18Params struct {
 	AgainMs    []int   `json:"again_ms,omitempty"`     // with Twice: the second cycle begins that long after the first ended (default 200)
 	AgainForMs int     `json:"again_for_ms,omitempty"` // with Twice: length of the second pause (default: the same)
 	SlowK      []int   `json:"slow_k,omitempty"`       // additionally the k-th message the client writes is held for 1.2 s (each k in turn)
+	SilentK    []int   `json:"silent_k,omitempty"`     // additionally the peer falls silent from its k-th message on (each k in turn): the continued side must still end
 	Shard      int     `json:"shard"`
 	NShards    int     `json:"nshards"`
 	Sched      int     `json:"sched,omitempty"`
@@ -63,10 +64,11 @@ func c18Oracle(w *world, r *worldResult) (violation, outcome string) {
 	rtt := 2 * time.Duration(w.p.LatencyMs) * time.Millisecond
 	// (a "timer lands first" deviation stalls the whole process for r.Sched.Stall: for the peer that is pause time too)
 	stall := r.Sched.Stall
-	if len(r.Pauses) > 0 && longest+stall < timeout-300*time.Millisecond-rtt && outcome != "success" {
+	silent := len(w.p.MsgFaults) > 0 && w.p.MsgFaults[0].Kind == "silence" // the peer falls silent as well: only "never a hang" and "no wrong success" remain
+	if len(r.Pauses) > 0 && !silent && longest+stall < timeout-300*time.Millisecond-rtt && outcome != "success" {
 		return fmt.Sprintf("a pause of %v (timeout %v) made the transfer fail: server err %q said %q, client exit %q fail %q", longest, timeout, clipStr(r.SrvErr, 160), clipStr(said, 80), clipStr(r.ClientExit, 60), clipStr(r.ClientFail, 160)), outcome
 	}
-	if srvOK != cliOK {
+	if srvOK != cliOK && !silent {
 		return fmt.Sprintf("one side reports success and the other an error (server ok=%v, client ok=%v): server err %q, client fail %q", srvOK, cliOK, clipStr(r.SrvErr, 160), clipStr(r.ClientFail, 160)), outcome
 	}
 	// while paused the client sends no further file data: at most the chunk whose pause check had passed
@@ -144,11 +146,14 @@ func c18Run(j vs.Job) *vs.JobResult {
 	type combo struct{ again, slowK int }
 	var combos []combo
 	for _, a := range agains {
-		if len(p.SlowK) == 0 {
+		if len(p.SlowK) == 0 && len(p.SilentK) == 0 {
 			combos = append(combos, combo{a, 0})
 		}
 		for _, sk := range p.SlowK {
 			combos = append(combos, combo{a, sk})
+		}
+		for _, sk := range p.SilentK {
+			combos = append(combos, combo{a, -sk}) // negative: silence from that message on
 		}
 	}
 	for step := 1; step <= nSteps; step++ {
@@ -173,6 +178,12 @@ func c18Run(j vs.Job) *vs.JobResult {
 				}
 				if cb.slowK > 0 {
 					wp.MsgFaults = []wMsgFault{{"c2s", cb.slowK, "slow"}}
+				} else if cb.slowK < 0 {
+					peer := "s2c"
+					if wp.Dir == "down" {
+						peer = "s2c" // the server is the peer of the pausing client in both directions
+					}
+					wp.MsgFaults = []wMsgFault{{peer, -cb.slowK, "silence"}}
 				}
 				exec := func(prefix, prefixN []int, trace bool) *vs.ExecResult {
 					w, res := runWorld(wp, vs.Config{Trace: trace, ClockChoice: p.Sched > 0}, prefix, prefixN, nil)
@@ -208,7 +219,7 @@ func c18Run(j vs.Job) *vs.JobResult {
 				}
 				e.Explore()
 				r.AddStats(st)
-				if !p.Twice {
+				if !p.Twice && len(p.SilentK) == 0 && len(p.SlowK) == 0 {
 					break
 				}
 			}
@@ -297,6 +308,13 @@ func init() {
 				n := 8
 				for s := 0; s < n; s++ {
 					jobs = append(jobs, vs.MkJob(fmt.Sprintf("pause-twice-slow-write %s %d/%d", c.String(), s, n), c18Params{W: c, ForMs: []int{300}, AgainMs: []int{1000}, AgainForMs: 1600, SlowK: []int{2, 3, 4, 5, 6, 7, 8, 9, 10, 11, 12, 13, 14}, Twice: true, Shard: s, NShards: n}))
+				}
+			}
+			// pause and continue while the peer falls silent: the continued side must still end (with an error), never hang
+			for _, c := range []wParams{{Dir: "up", Tree: "one:R:35000", Timeout: 2}, {Dir: "down", Tree: "one:R:35000", Timeout: 2}} {
+				n := 4
+				for s := 0; s < n; s++ {
+					jobs = append(jobs, vs.MkJob(fmt.Sprintf("pause-and-silence %s %d/%d", c.String(), s, n), c18Params{W: c, ForMs: []int{300, 1400}, SilentK: []int{4, 6, 8}, Shard: s, NShards: n}))
 				}
 			}
 			if tier == "thorough" {
